@@ -10,6 +10,8 @@ commands a recording `IProvider` received.  Positions are float bit patterns; ge
 multiples of 1/8 below 2^7 and tolerances are dyadic, so every squared distance and the comparison with
 `tolerance ** 2` is exact in IEEE doubles (boundary cases are decided exactly, not within an epsilon).
 """
+import functools
+import gc
 import itertools
 import json
 import random
@@ -24,6 +26,12 @@ from gradysim.protocol.messages.telemetry import Telemetry
 from gradysim.protocol.plugin import dispatcher as _dispatcher
 from gradysim.protocol.plugin.mission_mobility import (LoopMission, MissionMobilityConfiguration,
                                                        MissionMobilityPlugin, MissionMobilityPluginException)
+
+@functools.lru_cache(maxsize=8192)
+def _fb(x):
+    """fbits with shared result strings (10^6 enumerated histories repeat the same few coordinates)"""
+    return fbits(x)
+
 
 MODES = [m.name for m in LoopMission]          # read from the implementation: NO, RESTART, REVERSE
 TOLS = [0.5, 1.25, 2.5, 5.0, 1.0]              # dyadic; multiples of 1.25 admit exact 3-4-5 boundary offsets
@@ -42,9 +50,9 @@ class _RecProvider(IProvider):
     def send_mobility_command(self, command):
         t = command.command_type
         if t == MobilityCommandType.GOTO_COORDS:
-            self.cmds.append(["goto", [fbits(command.param_1), fbits(command.param_2), fbits(command.param_3)]])
+            self.cmds.append(["goto", [_fb(command.param_1), _fb(command.param_2), _fb(command.param_3)]])
         elif t == MobilityCommandType.SET_SPEED:
-            self.cmds.append(["setSpeed", fbits(command.param_1)])
+            self.cmds.append(["setSpeed", _fb(command.param_1)])
         else:
             self.cmds.append(["other", str(t)])
 
@@ -78,7 +86,22 @@ class _RecProtocol(IProtocol):
         pass
 
 
+_runs = 0
+
+
+def _gc_hygiene():
+    """the framework keeps every row of a run alive; with 10^6 enumerated histories the cyclic collector
+    would rescan them over and over.  Collect the (cyclic) garbage of the finished plugins, then move the
+    survivors out of the collector's sight."""
+    global _runs
+    _runs += 1
+    if _runs % 20000 == 0:
+        gc.collect()
+        gc.freeze()
+
+
 def run_impl(case):
+    _gc_hygiene()
     prov = _RecProvider()
     proto = _RecProtocol.instantiate(prov)
     cfg = MissionMobilityConfiguration(speed=bitsf(case["speed"]), loop_mission=LoopMission[case["loop"]],
@@ -118,13 +141,18 @@ def run_impl(case):
 
 # ------------------------------------------------------------------------------------------------
 # the property, read directly (no model): exact arithmetic, the visiting order of each loop mode
+@functools.lru_cache(maxsize=4096)
+def _fr(b):
+    return Fraction(bitsf(b))
+
+
 def _frac(p):
-    return [Fraction(bitsf(b)) for b in p]
+    return [_fr(b) for b in p]
 
 
 def reached_exact(pos, target, tol_bits):
     a, b = _frac(pos), _frac(target)
-    t = Fraction(bitsf(tol_bits))
+    t = _fr(tol_bits)
     return sum((x - y) ** 2 for x, y in zip(a, b)) <= t * t
 
 
@@ -200,7 +228,7 @@ def oracle(case, impl):
     last_goto = None
     prev = {"wp": None, "reversed": False, "idle": True}
     for k, (op, r) in enumerate(zip(case["ops"], impl["results"])):
-        where = f"op #{k} {op_text(op)}"
+        where = _Where(k, op)
         was_active, m0, wp0, rev0 = spec.m is not None, spec.m, spec.wp, spec.rev
         want, stepped = spec.apply(op)
         for c in r["cmds"]:
@@ -274,6 +302,16 @@ def oracle(case, impl):
 
 
 # ------------------------------------------------------------------------------------------------
+class _Where:
+    """'op #k <call>' rendered only when a message is actually built"""
+
+    def __init__(self, k, op):
+        self.k, self.op = k, op
+
+    def __format__(self, spec):
+        return f"op #{self.k} {op_text(self.op)}"
+
+
 def pos_text(p):
     return "(" + ", ".join(f"{bitsf(b):g}" for b in p) + ")"
 
@@ -457,7 +495,7 @@ def enumerate_histories(n, loop, depth, first=None):
             if c[0] == "start":
                 op = ["start", mission]
             elif c[0] == "tele":
-                op = ["telemetry", (list(spec.target()) if spec.m is not None else mission[0]) if c[1] == "on" else off]
+                op = ["telemetry", (spec.target() if spec.m is not None else mission[0]) if c[1] == "on" else off]
             elif c[0] == "stop":
                 op = ["stop"]
             else:
@@ -479,7 +517,10 @@ class C16(Check):
     rule = ("histories of 1-40 public calls on the real plugin (mission lengths 1-5 x NO/RESTART/REVERSE; telemetry on target, "
             "exactly on / just inside / just outside the tolerance sphere on a dyadic lattice, on other waypoints, far away; "
             "out-of-bounds set_current_waypoint, set_reversed in every mode, calls before start and after the mission ended); "
-            "thorough adds every history of <= 6 calls over a 9-10 letter alphabet for lengths 1-4 x 3 modes. "
+            "plus small-scope enumeration over a 9-10 letter alphabet (start, stop, set_current_waypoint(-1|0|len-1|len), "
+            "set_reversed(T|F), telemetry on/off the expected target) for lengths 1-4 x 3 modes: quick = every history of <= 3 calls "
+            "and (lengths 1, 2) of <= 4 calls beginning with start_mission; thorough = every history of <= 4 calls and every history of <= 6 calls "
+            "beginning with start_mission. "
             "non-trivial = the history contains a refused request AND (REVERSE: bounces at the last and at the first waypoint; "
             "RESTART: wraps from the last waypoint to the first; NO: runs to completion and is called again afterwards)")
     assumptions = ["missions are non-empty (start_mission([]) raises IndexError after changing the fields; domain note)",
@@ -497,14 +538,18 @@ class C16(Check):
             h = gen_history(stable_hash("C16", seed, i))
             h["label"] = f"gen/{seed}/{i}"
             yield h
-        # small scope, both tiers: every history of <= 3 calls, and start followed by every 3 calls
+        # small scope: every history over the 9-10 letter alphabet of enum_alphabet, per length and mode.
+        # quick: all histories of <= 3 calls, and (lengths 1, 2) start_mission followed by every 3 further calls;
+        # thorough: all histories of <= 4 calls, and start_mission followed by every 5 further calls
+        # (calls made before the first start_mission act on the initial state only).
         for ln in (1, 2, 3, 4):
             for loop in MODES:
-                yield from enumerate_histories(ln, loop, 3)
                 if tier == "quick":
+                    yield from enumerate_histories(ln, loop, 3)
                     if ln <= 2:
                         yield from enumerate_histories(ln, loop, 4, first=("start",))
                 else:
+                    yield from enumerate_histories(ln, loop, 4)
                     yield from enumerate_histories(ln, loop, 6, first=("start",))
 
     def widen(self, seed, tier):
@@ -522,6 +567,10 @@ class C16(Check):
         b = model["results"]
         if len(a) != len(b):
             return [f"observation length differs: implementation {len(a)} vs model {len(b)}"]
+        if a == b:
+            if case.get("label") == "enum":
+                model["results"] = len(b)      # agreed: keep the count only (the framework holds every row in memory)
+            return []
         for k, (x, y) in enumerate(zip(a, b)):
             if x != y:
                 keys = [f for f in ("out", "wp", "reversed", "idle", "cmds") if x.get(f) != y.get(f)]
